@@ -10,6 +10,8 @@ import (
 
 	"github.com/agnivade/levenshtein"
 	"github.com/smarthome-go/homescript/v3/homescript/errors"
+
+	"golang.org/x/text/unicode/norm"
 )
 
 type ValueString struct {
@@ -167,6 +169,7 @@ func (self ValueString) IntoIter() func() (Value, bool) {
 
 func NewValueString(inner string) *Value {
 	zero := 0
-	val := Value(ValueString{Inner: inner, currIterIdx: &zero})
+	// normalised like on the VM: the same text has the same length and characters on both backends
+	val := Value(ValueString{Inner: norm.NFC.String(inner), currIterIdx: &zero})
 	return &val
 }
